@@ -120,6 +120,13 @@ def step (d : DS) (ws : List String) : DS × String :=
   | "s.js" :: key :: vn :: vs :: dv :: body :: rest =>
     let r := jsonSave d.now (unhx vn) (unhx vs) ⟨dv.toInt?.getD 0, unhx body⟩ rest.head? (getJ d key)
     (setJ d key r.1, replyStr r.2 ++ " " ++ dumpJ d.now r.1)
+  | "save-lost" :: _ :: key :: ver :: exat :: fs =>
+    -- the script runs exactly once (the store changes as for a Save); the caller only sees a transport error
+    let x := exat.toInt?.getD 0
+    let e : Entity := { key := unhx key, ver := ver.toInt?.getD 0, fields := fs.filterMap parseField,
+                        exat := if x == 0 then none else some x }
+    let r := save d.now d.schE e (getH d ("e:" ++ unhx key))
+    (setH d ("e:" ++ unhx key) r.1, "err " ++ dumpH d.now r.1 ++ " execs=1")
   | "save" :: t :: key :: ver :: exat :: fs =>
     let (sch, pre) := schOf d t
     let x := exat.toInt?.getD 0
